@@ -106,11 +106,11 @@ def first_hit_on_not_none(loop, value_names=None):
 def run(rep):
     repo = rep.repo
     mod = repo.module('adapter.py')
-    rep.rule('R04.1', 'adapter._lookup recursive branch: walk specs[i].__sro__ '
-             'forward for every position i, exact-key probe, first non-None '
-             'hit returns, recursion with i+1 and unchanged specs/provided/name')
-    rep.rule('R04.2', 'adapter._lookup leaf branch: walk the extendor list '
-             'forward, exact interface probe, exact-name probe, first non-None')
+    rep.rule('R04.1', 'adapter._lookup: the walk over specs[i].__sro__ (iff i < l) '
+             'and the walk over the extendor list (iff not) both run forward, '
+             'probe exact keys / the exact name, return the first non-None hit; '
+             'recursion with i+1 and unchanged specs/provided/name; miss -> None',
+             floor=11)
     rep.rule('R04.3', 'add_extendor keeps everything `provided` extends in '
              'front (most general first) for every interface of provided.__iro__; '
              'remove_extendor removes by equality from every __iro__ entry',
@@ -130,118 +130,19 @@ def run(rep):
     rep.decline('none - relative to C02/C03 (resolution orders) and C01 '
                 '(providedBy)')
 
-    # ---- R04.1 / R04.2 --------------------------------------------------
+    # ---- R04.1 / R04.2 (the walker, wherever its loops are nested) ------------
+    from . import sem
     f = find_def(mod, '_lookup')
-    ps = params(f)
-    rep.require(len(ps) == 6, '_lookup signature changed: %s' % ps)
-    comp_p, specs_p, prov_p, name_p = ps[0], ps[1], ps[2], ps[3]
-    sp = split_recursive_leaf(rep, f, 'R04.1')
-    if sp is None:
-        rep.check('R04.1', 'adapter._lookup', False,
-                  'cannot find the `i < l` split between recursive and leaf branch',
-                  node=f)
-        rep.check('R04.2', 'adapter._lookup', False, 'no leaf branch', node=f)
-    else:
-        rec_body, leaf_body, i_n, l_n, ifnode = sp
-        rep.require(i_n == ps[4] and l_n == ps[5],
-                    '_lookup: index/length parameters not recognised')
-        # recursive branch
-        loops = [s for s in rec_body if isinstance(s, ast.For)]
-        ok = len(loops) == 1
-        if not ok:
-            rep.check('R04.1', 'adapter._lookup', False,
-                      'recursive branch has %d top-level loops' % len(loops),
-                      node=ifnode)
-        else:
-            lp = loops[0]
-            src, d = iter_polarity(lp.iter, f)
-            env = match('%s[%s].__sro__' % (specs_p, i_n), src)
-            rep.check('R04.1', 'adapter._lookup', env is not None,
-                      'recursive walk iterates `%s` (required: %s[%s].__sro__)'
-                      % (norm_src(src), specs_p, i_n),
-                      construct='source', node=lp)
-            rep.check('R04.1', 'adapter._lookup', d == 'fwd',
-                      'direction of the walk over the required spec\'s __sro__ '
-                      'is %s (required fwd, independent of the position i: '
-                      'most specific first)' % d, construct='direction', node=lp)
-            pe = probe_is_exact(f, lp, {comp_p})
-            rep.check('R04.1', 'adapter._lookup', bool(pe and pe[0]),
-                      'probe keys %s (required: exactly the loop variable)'
-                      % (pe[1] if pe else 'none found'),
-                      construct='probe', node=lp)
-            fh = first_hit_on_not_none(lp)
-            rep.check('R04.1', 'adapter._lookup', fh[0], fh[1],
-                      construct='first-hit', node=lp)
-            # recursion arguments
-            recs = [c for c in calls_in(lp) if isinstance(c.func, ast.Name)
-                    and c.func.id == f.name]
-            okr = len(recs) == 1
-            detail = 'recursive calls: %s' % [norm_src(c) for c in recs]
-            if okr:
-                c = recs[0]
-                a = c.args
-                okr = (len(a) == 6 and not c.keywords
-                       and isinstance(a[1], ast.Name) and a[1].id == specs_p
-                       and isinstance(a[2], ast.Name) and a[2].id == prov_p
-                       and isinstance(a[3], ast.Name) and a[3].id == name_p
-                       and match('%s + 1' % i_n, a[4]) is not None
-                       and isinstance(a[5], ast.Name) and a[5].id == l_n)
-                # first argument: the probed sub-container
-                if okr:
-                    sub = resolve_local(f, a[0])
-                    okr = not (isinstance(a[0], ast.Name) and a[0].id == comp_p)
-            rep.check('R04.1', 'adapter._lookup', okr, detail,
-                      construct='recursion', node=lp)
-        # leaf branch
-        loops = [s for s in leaf_body if isinstance(s, ast.For)]
-        if len(loops) != 1:
-            rep.check('R04.2', 'adapter._lookup', False,
-                      'leaf branch has %d top-level loops' % len(loops),
-                      node=ifnode)
-        else:
-            lp = loops[0]
-            src, d = iter_polarity(lp.iter, f)
-            rep.check('R04.2', 'adapter._lookup',
-                      isinstance(src, ast.Name) and src.id == prov_p,
-                      'leaf walk iterates `%s` (required: the extendor list `%s`)'
-                      % (norm_src(src), prov_p), construct='source', node=lp)
-            rep.check('R04.2', 'adapter._lookup', d == 'fwd',
-                      'direction of the extendor walk is %s (required fwd: '
-                      'most general provided interface first)' % d,
-                      construct='direction', node=lp)
-            pe = probe_is_exact(f, lp, {comp_p})
-            rep.check('R04.2', 'adapter._lookup', bool(pe and pe[0]),
-                      'probe keys %s' % (pe[1] if pe else 'none found'),
-                      construct='probe', node=lp)
-            gets = [c for c in calls_in(lp)
-                    if isinstance(c.func, ast.Attribute) and c.func.attr == 'get'
-                    and len(c.args) >= 1 and isinstance(c.args[0], ast.Name)
-                    and c.args[0].id == name_p]
-            okn = len(gets) == 1 and len(gets[0].args) == 1
-            rep.check('R04.2', 'adapter._lookup', okn,
-                      'exact-name probe `comps.get(%s)`: %s'
-                      % (name_p, [norm_src(g) for g in gets]),
-                      construct='name-probe', node=lp)
-            fh = first_hit_on_not_none(lp)
-            rep.check('R04.2', 'adapter._lookup', fh[0], fh[1],
-                      construct='first-hit', node=lp)
-        # fall through returns None
-        last = f.body[-1]
-        rep.check('R04.1', 'adapter._lookup',
-                  isinstance(last, ast.Return) and
-                  (last.value is None or (isinstance(last.value, ast.Constant)
-                                          and last.value.value is None)),
-                  'falls through to `%s`' % norm_src(last), construct='miss',
-                  node=last)
+    rep.require(len(params(f)) == 6, '_lookup signature changed: %s' % params(f))
+    sem.check_walkers(rep, 'R04.1', f, 'first')
 
     # ---- R04.3 add_extendor / remove_extendor ----------------------------
     shared.extendor_index(rep, 'R04.3', mod)
 
     # ---- R04.4 registry walk ------------------------------------------
     ul = find_def(mod, 'AdapterLookupBase._uncached_lookup')
-    shared.check_registry_walk(rep, 'R04.4', ul, want_dir='fwd',
-                               helper='_lookup', first_hit=True,
-                               tail_args=['name', '0', 'order'])
+    sem.registry_walk_spec(rep, 'R04.4', ul, '_lookup', '_adapters', 'fwd', True,
+                           ['name', '0', 'len(required)'], None)
 
     # ---- R04.5 None -> Interface ------------------------------------------
     for fn in ('register', '_find_leaf', 'unregister', 'subscribe',
@@ -266,9 +167,11 @@ def run(rep):
     rep.check('R04.5', '_convert_None_to_Interface', got == want or got == alt,
               'decision table %s' % sorted(map(str, got)), node=cn)
 
-    # ---- R04.6 default handling (PY) -------------------------------------
+    # ---- R04.6 default handling and cache fill (PY) ----------------------
     lk = find_def(mod, 'LookupBase.lookup')
-    shared.check_default_tail(rep, 'R04.6', lk, 'LookupBase.lookup')
+    sem.cached_lookup_spec(rep, 'R04.6', lk, 'LookupBase.lookup', '_uncached_lookup',
+                           '_getcache', 'single-or-tuple', True,
+                           ['required', 'provided', 'name'])
     from .C05 import subscribe_on_all_exits
     subscribe_on_all_exits(rep, mod, 'R04.7', only=('_uncached_lookup',))
     from . import cside
